@@ -141,8 +141,13 @@ where
                 }
             };
             tokio::select! {
-                () = shutdown => { break Ok(()); }
+                () = shutdown => {
+                    #[cfg(humphrey_verif)]
+                    crate::verif::point("Loop_Exit", 0, 0);
+                    break Ok(()); }
                 s = socket.accept() => {
+                    #[cfg(humphrey_verif)]
+                    crate::verif::point("Accept_Return", s.as_ref().map_or(-1, |x| x.1.port() as i64), 0);
                     match s {
                         Ok((mut stream, _)) => {
                             let cloned_state = self.state.clone();
@@ -177,6 +182,8 @@ where
                                     )
                                         .await
                                 });
+                                #[cfg(humphrey_verif)]
+                                crate::verif::point("Dispatch", 0, 0);
                             } else {
                                 self.monitor.send(
                                     Event::new(EventType::ConnectionDenied)
